@@ -78,7 +78,9 @@ class ClosestIndex(ParameterTransformation):
                     allowed_inv_perms = jnp.array(
                         [jnp.linalg.inv(perm.reshape(3, 3)).flatten() for perm in allowed_perm_array]
                     )
-                dist = jnp.abs(arr[..., None] - allowed_inv_perms)
+                # compare every voxel against one value per material (the xx entry, which is the
+                # isotropic value and the key the material order is sorted by)
+                dist = jnp.abs(arr[..., None] - allowed_inv_perms[:, 0])
                 discrete = jnp.argmin(dist, axis=-1)
             else:
                 discrete = jnp.clip(jnp.round(arr), 0, len(self._materials) - 1)
